@@ -3,12 +3,14 @@
   (core Lean only).
 
   Mirrors:
-    include/nano/core/reduce.h        sum_reduce (accumulator0 += accumulators[i], i = 1…; then `/= samples`), min_reduce
-                                      (std::min_element with `one.m_score < other.m_score`: the FIRST smallest)
+    include/nano/core/reduce.h        sum_reduce (accumulator0 += accumulators[i], i = 1…; then `/= samples`),
+                                      min_reduce_feature (std::min_element with `(m_score, m_feature)` compared
+                                      lexicographically: the FIRST smallest; commit 62472c9 — before it: `m_score` only)
     src/linear/function.cpp:53-82     per-worker accumulation `m_accumulators[tnum] += …` inside `iterator.loop`, then sum_reduce
     src/gboost/function.cpp           same shape (bias / scale functions)
     src/wlearner/stump.cpp:127-160    per-worker cache: `if (std::isfinite(score) && score < cache.m_score) cache = candidate`,
-    src/wlearner/{affine,table,hinge,dtree}.cpp   the same rule; then `min_reduce(caches)`
+    src/wlearner/{affine,hinge}.cpp, dtree.cpp (through stump)   the same rule; then `min_reduce_feature(caches)`
+    src/wlearner/table.cpp:72,110,164  per-worker cache with the lexicographic test (commit 5de0896), `updLex`; then `min_reduce_feature`
     src/solver.cpp:94-106             solver_t::make_lsearch: the prototype line-search objects are CLONED per minimize call
     src/solver/lsearch.cpp:12-27      lsearch_t::get: reads/writes `m_last_step_size` and (through the non-const
                                       `lsearch0_t::get`) `m_prevf/m_prevdg` of the clone
@@ -39,18 +41,21 @@ def vadd {α : Type} [Add α] : List α → List α → List α
   | x :: xs, y :: ys => (x + y) :: vadd xs ys
   | _, _ => []
 
-/-! ### min_reduce over per-worker "first best" caches -/
+/-! ### min_reduce_feature over per-worker "first best" caches -/
 
-/-- a candidate: its score and whatever is stored with it (feature, threshold, tables) -/
+/-- a candidate: its score, the index of the feature it was computed on (`m_feature`) and whatever else is stored with it
+    (threshold, tables) -/
 structure Cand (α π : Type) where
   score : α
+  feature : Int
   payload : π
-deriving Repr
+deriving Repr, DecidableEq
 
-/-- the cache update of every weak-learner fit: `if (score < cache.m_score) cache = candidate`. `none` is the initial
-    cache (`m_score = wlearner_t::no_fit_score()` = the largest double; candidates are the *finite* scores, which the code
-    filters with `std::isfinite`, so every candidate compares below the initial value — except the score DBL_MAX itself,
-    which the code never stores: the driver filters it out with the non-finite ones) -/
+/-- the cache update of every weak-learner fit: `if (score < cache.m_score) cache = candidate` (the FIRST candidate seen
+    with the smallest score stays). `none` is the initial cache (`m_score = wlearner_t::no_fit_score()` = the largest double,
+    `m_feature = -1`, or `0` in affine.cpp; candidates are the *finite* scores, which the code filters with `std::isfinite`,
+    so every candidate compares below the initial value — except the score DBL_MAX itself, which the code never stores:
+    the driver filters it out with the non-finite ones) -/
 def upd {α π : Type} [LT α] [DecidableLT α] (c : Option (Cand α π)) (x : Cand α π) : Option (Cand α π) :=
   match c with
   | none => some x
@@ -59,21 +64,78 @@ def upd {α π : Type} [LT α] [DecidableLT α] (c : Option (Cand α π)) (x : C
 /-- the cache of one worker after the candidates `xs`, in this order -/
 def cacheOf {α π : Type} [LT α] [DecidableLT α] (xs : List (Cand α π)) : Option (Cand α π) := xs.foldl upd none
 
-/-- `one.m_score < other.m_score` on caches (`none` = the largest double) -/
+/-- the comparison of `min_reduce_feature` (reduce.h:25-31, commit 62472c9) on caches:
+    `one.m_score < other.m_score || (one.m_score == other.m_score && one.m_feature < other.m_feature)`.
+    Stored scores are never NaN, so `a == b` is `¬ a < b ∧ ¬ b < a` and the disjunction is written with `<` only.
+    `none` = the empty cache (largest double, feature −1): every stored candidate is strictly below it, it is below nothing
+    (two empty caches: equal scores, `-1 < -1` false). -/
 def lessC {α π : Type} [LT α] [DecidableLT α] : Option (Cand α π) → Option (Cand α π) → Bool
-  | some a, some b => decide (a.score < b.score)
+  | some a, some b => decide (a.score < b.score) || (!decide (b.score < a.score) && decide (a.feature < b.feature))
   | some _, none => true
   | none, _ => false
 
-/-- `min_reduce(caches)`: `std::min_element` keeps the first of the smallest; `none` for an empty vector (the code
-    dereferences `end()`), `some none` when no worker saw a candidate (the fit reports `no_fit_score`) -/
+/-- `min_reduce_feature(caches)`: `std::min_element` keeps the first of the smallest w.r.t. `lessC`; `none` for an empty
+    vector (the code dereferences `end()`), `some none` when no worker saw a candidate (the fit reports `no_fit_score`) -/
 def minReduce {α π : Type} [LT α] [DecidableLT α] : List (Option (Cand α π)) → Option (Option (Cand α π))
   | [] => none
   | c :: cs => some (cs.foldl (fun best x => if lessC x best then x else best) c)
 
-/-- the parallel map step followed by `min_reduce`, for the schedule `sched` -/
-def mapMinReduce {α π : Type} [LT α] [DecidableLT α] (sched : List (List (Cand α π))) : Option (Option (Cand α π)) :=
-  minReduce (sched.map cacheOf)
+/-- the parallel map step followed by `min_reduce_feature`, for the per-worker candidate streams `streams` -/
+def mapMinReduce {α π : Type} [LT α] [DecidableLT α] (streams : List (List (Cand α π))) : Option (Option (Cand α π)) :=
+  minReduce (streams.map cacheOf)
+
+/-- the cache update of the TABLE learners since commit 5de0896 (table.cpp:72, 110, 164):
+    `if (score < m_score || (score == m_score && feature < m_feature))` — the same lexicographic comparison as
+    `min_reduce_feature`. Needed there because a table fit runs TWO loops (single-label features, then multi-label ones) into
+    the same caches, so one worker may see feature indices out of order. Candidates of the SAME feature with equal scores:
+    the first one stays. -/
+def updLex {α π : Type} [LT α] [DecidableLT α] (c : Option (Cand α π)) (x : Cand α π) : Option (Cand α π) :=
+  if lessC (some x) c then some x else c
+
+/-- the cache of one worker of a table fit after the candidates `xs`, in this order -/
+def cacheOfLex {α π : Type} [LT α] [DecidableLT α] (xs : List (Cand α π)) : Option (Cand α π) := xs.foldl updLex none
+
+/-- table fits: lexicographic caches, then `min_reduce_feature` -/
+def mapMinReduceLex {α π : Type} [LT α] [DecidableLT α] (streams : List (List (Cand α π))) : Option (Option (Cand α π)) :=
+  minReduce (streams.map cacheOfLex)
+
+/-- one feature as a fit sees it: its index and its candidates (score, payload) in the fixed order of its sweep -/
+abbrev Feat (α π : Type) := Int × List (α × π)
+
+/-- the candidates of a feature carry its index (`cache.m_feature = feature` next to `cache.m_score = score`) -/
+def candsOf {α π : Type} (f : Feat α π) : List (Cand α π) := f.2.map fun sp => ⟨sp.1, f.1, sp.2⟩
+
+/-- what one worker feeds to its cache: the candidates of the features it processed, feature after feature -/
+def stream {α π : Type} (w : List (Feat α π)) : List (Cand α π) := w.flatMap candsOf
+
+/-- a worker processed its features in increasing index order. This is what `pool_t::map` produces (parallel.h:295-347:
+    the chunks are enqueued in increasing order under one lock into a FIFO queue, every worker pops from the front, and the
+    loop inside a chunk is increasing — dataset/iterator.cpp:236-276) for ONE loop over one feature list. -/
+def WorkerSorted {α π : Type} (w : List (Feat α π)) : Prop := (w.map Prod.fst).Pairwise (· < ·)
+
+instance {α π : Type} (w : List (Feat α π)) : Decidable (WorkerSorted w) :=
+  inferInstanceAs (Decidable ((w.map Prod.fst).Pairwise (· < ·)))
+
+/-- every worker of the schedule (per worker: the features it processed, in its order) is `WorkerSorted` -/
+def SchedSorted {α π : Type} (sched : List (List (Feat α π))) : Prop := ∀ w ∈ sched, WorkerSorted w
+
+instance {α π : Type} (sched : List (List (Feat α π))) : Decidable (SchedSorted sched) :=
+  inferInstanceAs (Decidable (∀ w ∈ sched, WorkerSorted w))
+
+/-! #### the rule before commit 62472c9 (`min_reduce`: score only) — kept for the counterexample of Props/C18.lean only -/
+
+def lessCOld {α π : Type} [LT α] [DecidableLT α] : Option (Cand α π) → Option (Cand α π) → Bool
+  | some a, some b => decide (a.score < b.score)
+  | some _, none => true
+  | none, _ => false
+
+def minReduceOld {α π : Type} [LT α] [DecidableLT α] : List (Option (Cand α π)) → Option (Option (Cand α π))
+  | [] => none
+  | c :: cs => some (cs.foldl (fun best x => if lessCOld x best then x else best) c)
+
+def mapMinReduceOld {α π : Type} [LT α] [DecidableLT α] (streams : List (List (Cand α π))) :
+    Option (Option (Cand α π)) :=
+  minReduceOld (streams.map cacheOf)
 
 /-! ### a shared object with prototype state and concurrent calls (solver_t + make_lsearch) -/
 
